@@ -80,9 +80,21 @@ pub enum Shape {
     ReadOnly,
     /// &mut A alone
     BareMut,
+    /// (&entities, BitSetXor(&bits, &bits2), &mut A)
+    BitXor,
+    /// (&entities, BitSetOr(&bits, BitSetNot(&bits2)), &mut A)
+    BitOrNot,
+    /// (&entities, &mut A, (&bits).maybe())
+    MaybeBits,
+    /// ((&entities, &mut A), (&XDense, (&XFHash).maybe()))
+    Nested,
 }
 
-pub const MUT_SHAPES: [Shape; 8] = [
+pub const MUT_SHAPES: [Shape; 12] = [
+    Shape::BitXor,
+    Shape::BitOrNot,
+    Shape::MaybeBits,
+    Shape::Nested,
     Shape::MutOnly,
     Shape::MutAndRead,
     Shape::MutAndNot,
@@ -143,6 +155,8 @@ pub struct Contents {
     pub xb: BTreeMap<u32, V>,
     pub bits: BTreeSet<u32>,
     pub bitset: BitSet,
+    pub bits2: BTreeSet<u32>,
+    pub bitset2: BitSet,
 }
 
 fn build<A: TComp>(c: &JCase) -> Contents
@@ -238,10 +252,16 @@ where
     }
     let mut bits = BTreeSet::new();
     let mut bitset = BitSet::new();
+    let mut bits2 = BTreeSet::new();
+    let mut bitset2 = BitSet::new();
     for i in 0..c.width + c.unmerged as u32 + 3 {
         if c.bits_pat.has(i, c.seed ^ 5) {
             bits.insert(i);
             bitset.add(i);
+        }
+        if c.xf_pat.has(i, c.seed ^ 6) {
+            bits2.insert(i);
+            bitset2.add(i);
         }
     }
     Contents {
@@ -253,6 +273,8 @@ where
         xb,
         bits,
         bitset,
+        bits2,
+        bitset2,
     }
 }
 
@@ -538,7 +560,10 @@ fn expected(c: &JCase, k: &Contents) -> BTreeSet<u32> {
             Shape::MutAndNot => !k.xd.contains_key(i),
             Shape::BitsetAndMut => k.bits.contains(i),
             Shape::Five => k.xb.contains_key(i) && k.xd.contains_key(i),
-            Shape::BareMut => true,
+            Shape::BareMut | Shape::MaybeBits => true,
+            Shape::BitXor => k.bits.contains(i) != k.bits2.contains(i),
+            Shape::BitOrNot => k.bits.contains(i) || !k.bits2.contains(i),
+            Shape::Nested => k.xd.contains_key(i),
         };
         if ok {
             s.insert(*i);
@@ -684,6 +709,57 @@ macro_rules! run_for_kind {
                         h.mid();
                         acc.access_mut().write(newp(seed, idx));
                         b.write(newp(seed, idx) + 1);
+                        h.leave(idx);
+                        Seen { idx, err }
+                    }),
+                    Shape::BitXor => drive((&ents, hibitset::BitSetXor(&k.bitset, &k.bitset2), &mut sa).par_join(), &c.mode, &|(e, bi, mut acc), h| {
+                        let idx = e.id();
+                        h.enter(idx);
+                        let mut err = own(idx, Some(e), (*acc).peek());
+                        if err.is_none() {
+                            err = chk("bit set member", idx, bi, idx);
+                        }
+                        h.mid();
+                        acc.access_mut().write(newp(seed, idx));
+                        h.leave(idx);
+                        Seen { idx, err }
+                    }),
+                    Shape::BitOrNot => drive((&ents, hibitset::BitSetOr(&k.bitset, hibitset::BitSetNot(&k.bitset2)), &mut sa).par_join(), &c.mode, &|(e, bi, mut acc), h| {
+                        let idx = e.id();
+                        h.enter(idx);
+                        let mut err = own(idx, Some(e), (*acc).peek());
+                        if err.is_none() {
+                            err = chk("bit set member", idx, bi, idx);
+                        }
+                        h.mid();
+                        acc.access_mut().write(newp(seed, idx));
+                        h.leave(idx);
+                        Seen { idx, err }
+                    }),
+                    Shape::MaybeBits => drive((&ents, &mut sa, (&k.bitset).maybe()).par_join(), &c.mode, &|(e, mut acc, b), h| {
+                        let idx = e.id();
+                        h.enter(idx);
+                        let mut err = own(idx, Some(e), (*acc).peek());
+                        if err.is_none() {
+                            err = chk("optional bit set member", idx, b, if kk.bits.contains(&idx) { Some(idx) } else { None });
+                        }
+                        h.mid();
+                        acc.access_mut().write(newp(seed, idx));
+                        h.leave(idx);
+                        Seen { idx, err }
+                    }),
+                    Shape::Nested => drive(((&ents, &mut sa), (&sd, (&sf).maybe())).par_join(), &c.mode, &|((e, mut acc), (d, f)), h| {
+                        let idx = e.id();
+                        h.enter(idx);
+                        let mut err = own(idx, Some(e), (*acc).peek());
+                        if err.is_none() {
+                            err = chk("read member", idx, Some(d.peek()), kk.xd.get(&idx).copied());
+                        }
+                        if err.is_none() {
+                            err = chk("optional member", idx, f.map(|x| x.peek()), kk.xf.get(&idx).copied());
+                        }
+                        h.mid();
+                        acc.access_mut().write(newp(seed, idx));
                         h.leave(idx);
                         Seen { idx, err }
                     }),
